@@ -22,7 +22,7 @@ TIERS = {
     # maxlen: history length; nsample: histories kept per invoke and setting
     # for each length >= 2; H range of the run-time maximum halo depth
     "quick": {"maxlen": 2, "nsample": 4, "hmin": 1, "hmax": 3},
-    "thorough": {"maxlen": 3, "nsample": 120, "hmin": 1, "hmax": 4},
+    "thorough": {"maxlen": 3, "nsample": 12, "hmin": 1, "hmax": 4},
 }
 
 
